@@ -236,7 +236,9 @@ pub fn reorg_case(w: &World, before: &PoolDump, after: &PoolDump, ch: &Change) -
     let no_deps = before.entries.iter().chain(after.entries.iter()).all(|e| e.related_deps.is_empty())
         && ch.detached.iter().all(|b| b.transactions().iter().skip(1).all(|t| t.cell_deps().len() <= 1));
     let precise = crate::pred::aggregates_consistent(before) && crate::pred::aggregates_consistent(after) && w.racing_since_sync == 0 && no_deps
-        && w.orphan_cause.is_empty();
+        && w.orphan_cause.is_empty()
+        // a two-step submission that straddled the change adds an entry the reorg model knows nothing about
+        && w.straddle_tx.is_none();
     Some(ReorgCase {
         max_anc: before.max_ancestors_count as u64,
         max_size: w.cfg.max_tx_pool_size as u64,
